@@ -41,10 +41,13 @@ for pid in sorted(props.PROPS):
             "category": "other",
             "text": "Necessary structural clauses of the property are decided statically over the whole package on every run "
                     f"(rules: {', '.join(rules)}). {meta['explanation']} NOT decided: {meta['not_decided']}.",
-            "design_ref": "DESIGN.md sections 3 and 4/" + pid,
+            "design_ref": "DESIGN.md sections 3, 4/" + pid + " and 10 (as built)",
         },
         "level_note": "Trusted base: CPython ast parser; the nominal type/alias/effect layer of /verif/sa (frozen supplement tables, "
-                      "three shape axioms); callbacks do not mutate the tree; no dynamic attribute machinery in the package (checked). "
+                      "three shape axioms); the canonicalising rewrite sa/canon.py; callbacks do not mutate the tree; no dynamic attribute "
+                      "machinery in the package (checked). Clauses that pin what a small function computes are three-valued: when the "
+                      "constructs a clause reads are not recognised on a changed tree it is reported UNDECIDED (counted in the evidence), "
+                      "neither as a pass of that clause nor as a violation. "
                       "Findings listed in known_findings.json are genuine defects recorded, not repaired.",
         "technique": "static analysis: " + TECH[pid],
     })
@@ -60,11 +63,14 @@ man = {
     },
     "engines": [{"name": "sa", "path": "/verif/sa", "serves_properties": sorted(props.PROPS),
                  "kind_free_text": "repository-specific static analyser on Python's ast: class/MRO model, nominal types, callee resolution, "
-                                   "alias (roots/fields) layer, write-effect summaries, per-function CFG with dominance and path queries, ~45 rules"}],
+                                   "alias (roots/fields) layer, write-effect summaries, per-function CFG with dominance and path queries, "
+                                   f"canonical form of every function body (sa/canon.py), path conditions / exit cases / resolved expressions, {len(RULES)} rules"}],
     "checks": checks,
     "not_applicable": [],
     "notes": "All checks are static (family: static analysis). Exit 0 = every obligation discharged or listed as known finding; "
-             "exit 1 + VIOLATION line = new finding; exit 2 + ANALYSIS-ERROR = cannot decide (vanished anchor, unrecognised shape).",
+             "exit 1 + VIOLATION line = new finding; exit 2 + ANALYSIS-ERROR = cannot decide (vanished anchor function, rule below its "
+             "instance floor) and no finding. Development aids that are not registered checks: python3 -m sa.corpus (patch corpora "
+             "seeded/ and benign/), python3 -m sa.selftest.",
 }
 json.dump(man, open("/verif/MANIFEST.json", "w"), indent=1)
 print("wrote MANIFEST.json with", len(checks), "checks")
